@@ -5,10 +5,11 @@
 # each named property (expects exit 1 + VIOLATION), and always restores /repo.
 set -u
 patch="$1"; shift
+root=${VERIF_ROOT:-/verif}
 cd /repo || exit 2
 if ! git diff --quiet; then echo "refusing: /repo has uncommitted changes"; exit 2; fi
-bak=$(mktemp -d); cp -r /verif/evidence "$bak/evidence"
-trap 'git -C /repo checkout -- . >/dev/null 2>&1; rm -rf /verif/evidence; cp -r "$bak/evidence" /verif/evidence; rm -rf "$bak"' EXIT
+bak=$(mktemp -d); cp -r "$root/evidence" "$bak/evidence"
+trap 'git -C /repo checkout -- . >/dev/null 2>&1; rm -rf "$root/evidence"; cp -r "$bak/evidence" "$root/evidence"; rm -rf "$bak"' EXIT
 if ! git apply "$patch"; then echo "PATCH-DOES-NOT-APPLY"; exit 2; fi
 export GOFLAGS=-mod=mod GOPROXY=off GOSUMDB=off GOTOOLCHAIN=local
 if go build ./... >/tmp/seedtest-build.log 2>&1 && go test -mod=mod -vet=off -count=1 ./... >/tmp/seedtest-suite.log 2>&1; then
@@ -16,7 +17,7 @@ if go build ./... >/tmp/seedtest-build.log 2>&1 && go test -mod=mod -vet=off -co
 else
   echo "SUITE: FAILS with the change"; tail -15 /tmp/seedtest-suite.log /tmp/seedtest-build.log
 fi
-cd /verif
+cd "$root"
 for p in "$@"; do
   tier=${TIER:-quick}
   out=$(./run check "$p" "$tier" 2>&1); rc=$?
